@@ -6,6 +6,8 @@ import Geo.Proto
 import Geo.LeviCivita
 import Geo.JoinMeet
 import Geo.Transform
+import Geo.Indexing
+import Geo.Arith
 open Geo
 
 def absLeQ (a b : Q) : Bool := decide (Gauss.normSq a ≤ Gauss.normSq b)
@@ -136,6 +138,21 @@ def opKernel (op : String) (t : Tens Q) : String :=
   | "rank" => "ok " ++ showTens ⟨fs, (ms.map fun m => (⟨(m.rank : Int), 0⟩ : Q)).toArray⟩
   | _ => "bad-op"
 
+def parseIx (s : String) : Option Ix :=
+  match s.toList with
+  | ['i'] => some .int
+  | ['s'] => some .slice
+  | ['n'] => some .none
+  | ['e'] => some .ellipsis
+  | 'a' :: d => (String.ofList d).toNat?.map fun d => Ix.arr d true
+  | 'l' :: d => (String.ofList d).toNat?.map fun d => Ix.arr d false
+  | 'm' :: d => (String.ofList d).toNat?.map Ix.mask
+  | _ => none
+
+def showMapping : Option (List (Option Nat)) → String
+  | none => "err IndexError"
+  | some m => "ok " ++ (if m.isEmpty then "-" else String.intercalate "." (m.map fun x => match x with | some a => toString a | none => "N"))
+
 def dispatch (op : String) (args : List String) : String :=
   match op, args with
   | "diagram", _ => opDiagram args
@@ -205,6 +222,33 @@ def dispatch (op : String) (args : List String) : String :=
     | _, _ => "bad-op"
   | "polyfromroots", lead :: rs => match parseQ lead, rs.mapM parseQ with
     | some l, some rs => "ok " ++ showTens ⟨[rs.length + 1], (polyFromRoots l rs).toArray⟩
+    | _, _ => "bad-op"
+  | "ewise", [o, a, b] => match parseTens a, parseTens b with
+    | some a, some b =>
+      let f : Q → Q → Q := match o with | "add" => (· + ·) | "sub" => (· - ·) | "mul" => (· * ·) | _ => (· / ·)
+      match ewise f a b with
+      | some r => "ok " ++ showTens r
+      | none => "err ValueError"
+    | _, _ => "bad-op"
+  | "padd", [a, b] | "psub", [a, b] => match parseTens a, parseTens b with
+    | some a, some b => match pointAddSub (op == "psub") a b with
+      | some r => "ok " ++ showTens r
+      | none => "err ValueError"
+    | _, _ => "bad-op"
+  | "pmul", [a, c] | "pdiv", [a, c] => match parseTens a, parseQ c with
+    | some a, some c => "ok " ++ showTens (pointScale (op == "pdiv") a c)
+    | _, _ => "bad-op"
+  | "transpose", [r, perm, cov, con] => match r.toNat?, parseNatList "." perm, parseNatList "." cov, parseNatList "." con with
+    | some r, some perm, some cov, some con =>
+      let p := cyclePerm r perm
+      let t := transposeTypes p cov con
+      s!"ok {showNatList "." p} {showNatList "." t.1} {showNatList "." t.2}"
+    | _, _, _, _ => "bad-op"
+  | "ixmap", r :: comps => match r.toNat?, comps.mapM parseIx with
+    | some r, some cs => showMapping (indexMapping r cs)
+    | _, _ => "bad-op"
+  | "npaxes", r :: comps => match r.toNat?, comps.mapM parseIx with
+    | some r, some cs => showMapping (numpyAxes r cs)
     | _, _ => "bad-op"
   | "eps", [n] => match n.toNat? with
     | some n => s!"ok {showTens (epsTens n : Tens Q)}"
